@@ -36,5 +36,6 @@ struct Scheduler {
     ~Scheduler();
 };
 extern Scheduler* g_sched;
+extern void (*g_yield_extra)(void);   // extra action at every H1 yield (dispatch flipping)
 
 } // namespace jv
